@@ -307,7 +307,7 @@ def s(major_cn, minor_cn, normal_cn, error_rate=1e-3):
 
 def rule_E3(ctx):
     prog = ctx.prog
-    ctx.rule("E3", "genotype table: x in 1..major -> cn (normal, normal, total), mu (eps, eps, min(1-eps, x/total)); extra (normal, total, total) / min(1-eps, 1/total) iff absent; uniform normalised log_pi; lists grow in lock step; MajorCopyNumberError iff major < minor", 6)
+    ctx.rule("E3", "genotype table: x in 1..major -> cn (normal, normal, total), mu (eps, eps, min(1-eps, x/total)); extra (normal, total, total) / min(1-eps, 1/total) iff absent; uniform normalised log_pi; lists grow in lock step; floating dtypes; MajorCopyNumberError iff major < minor", 8)
     f = prog.fn("pyclone.get_major_cn_prior")
     ex = extract(prog, f)
     sp = spec(prog, SPEC_PRIOR, f)
